@@ -10,7 +10,9 @@ package sharedcomponent
 import (
 	"context"
 	"fmt"
+	"sync"
 	"testing"
+	"time"
 
 	"go.opentelemetry.io/collector/component"
 	"go.opentelemetry.io/collector/component/componentstatus"
@@ -145,6 +147,126 @@ func TestVerifC11Shared(t *testing.T) {
 					fmt.Sprintf("reports_before_first_late_attach=%d instance=%d delivered=%v first=%v", firstLateAt, j, events[j], events[0]))
 				break
 			}
+		}
+	}
+}
+
+// ---- concurrent attach vs report ---------------------------------------------------------------
+// A late instance attaches (Start with its own host) while the wrapped component reports from
+// another goroutine.  The late host BLOCKS inside the first replayed event until the harness has
+// given the concurrent report 60 ms to get through; attach (replay + registration) must be atomic
+// with respect to reports, so the concurrent report has to wait and is then delivered to EVERY
+// attached instance, the late one included.  Script sent to the model: attach-then-report (the
+// only linearisation in which the report was issued after the replay had begun).
+
+type vGateHost struct {
+	i      int
+	mu     *sync.Mutex
+	log    *[][2]int
+	first  sync.Once
+	inside chan struct{}
+	gate   chan struct{}
+}
+
+func (h *vGateHost) GetExtensions() map[component.ID]component.Component { return nil }
+func (h *vGateHost) Report(e *componentstatus.Event) {
+	h.first.Do(func() {
+		if h.inside != nil {
+			close(h.inside)
+			<-h.gate
+		}
+	})
+	h.mu.Lock()
+	*h.log = append(*h.log, [2]int{h.i, int(e.Status())})
+	h.mu.Unlock()
+}
+
+func TestVerifC11SharedConc(t *testing.T) {
+	out := vOpen()
+	defer out.Close()
+	rng := vNewRand(1114)
+	n := vBudget(24, 10)
+	for c := 0; c < n; c++ {
+		var mu sync.Mutex
+		var log [][2]int
+		var script [][2]int
+		m := NewMap[int, *vComp]()
+		inner := &vComp{}
+		comp, err := m.LoadOrStore(1, func() (*vComp, error) { return inner, nil })
+		if err != nil {
+			t.Fatal(err)
+		}
+		_ = comp.Start(context.Background(), &vGateHost{i: 0, mu: &mu, log: &log})
+		script = append(script, [2]int{0, 0}, [2]int{1, 1})
+		cur := 1
+		// 0-3 reports before the late attach (stays below the ring size: outside finding S3)
+		for k := rng.Intn(4); k > 0; k-- {
+			st := []int{2, 3}[rng.Intn(2)]
+			componentstatus.ReportStatus(inner.host, componentstatus.NewEvent(componentstatus.Status(st)))
+			script = append(script, [2]int{1, st})
+			if vDiagram(cur, st) {
+				cur = st
+			}
+		}
+		// the concurrent report: a legal move from the current status, so every instance must deliver it
+		var legal []int
+		for b := 2; b <= 4; b++ {
+			if vDiagram(cur, b) {
+				legal = append(legal, b)
+			}
+		}
+		x := legal[rng.Intn(len(legal))]
+		late := &vGateHost{i: 1, mu: &mu, log: &log, inside: make(chan struct{}), gate: make(chan struct{})}
+		attachDone := make(chan struct{})
+		go func() { _ = comp.Start(context.Background(), late); close(attachDone) }()
+		<-late.inside // the replay to the late instance has begun
+		reportDone := make(chan struct{})
+		go func() {
+			componentstatus.ReportStatus(inner.host, componentstatus.NewEvent(componentstatus.Status(x)))
+			close(reportDone)
+		}()
+		overtook := false
+		select {
+		case <-reportDone:
+			overtook = true // the report got through while the attach was still replaying
+		case <-time.After(60 * time.Millisecond):
+		}
+		close(late.gate)
+		<-attachDone
+		<-reportDone
+		script = append(script, [2]int{0, 1}, [2]int{1, x})
+		if rng.Bool() {
+			_ = comp.Shutdown(context.Background())
+			script = append(script, [2]int{1, 6}, [2]int{1, 7})
+		}
+		st := make([]string, len(script))
+		for i, s := range script {
+			st[i] = vPair(vNat(s[0]), vZ(int64(s[1])))
+		}
+		mu.Lock()
+		ob := make([]string, len(log))
+		for i, e := range log {
+			ob[i] = vPair(vNat(e[0]), vZ(int64(e[1])))
+		}
+		events := make([][]int, 2)
+		state := make([]int, 2)
+		for _, e := range log {
+			if vDiagram(state[e[0]], e[1]) {
+				state[e[0]] = e[1]
+				events[e[0]] = append(events[e[0]], e[1])
+			}
+		}
+		mu.Unlock()
+		term := vPair("1", vPair(vList(st), vList(ob)))
+		out.Case(true, term)
+		if overtook {
+			out.Stat("report_overtook_attach", 1)
+		} else {
+			out.Stat("report_waited_for_attach", 1)
+		}
+		if fmt.Sprint(events[1]) != fmt.Sprint(events[0]) {
+			out.Oracle("shared-concurrent-report-missed", term,
+				fmt.Sprintf("report %d issued during the late attach: late instance delivered=%v first=%v overtook=%v", x, events[1], events[0], overtook))
 		}
 	}
 }
